@@ -387,6 +387,16 @@ class BlockInterp:
 
     def make_closure(self, fdef):
         outer = self
+        is_gen = False
+        stack = list(fdef.body)
+        while stack:
+            x = stack.pop()
+            if isinstance(x, (ast.FunctionDef, ast.Lambda, ast.ClassDef)):
+                continue
+            if isinstance(x, (ast.Yield, ast.YieldFrom)):
+                is_gen = True
+                break
+            stack.extend(ast.iter_child_nodes(x))
 
         def closure(*args, **kwargs):
             a = fdef.args
@@ -423,8 +433,14 @@ class BlockInterp:
                 raise Unsupported(f"missing argument(s) {missing} for {fdef.name}")
             sub = BlockInterp(env, on_call=outer.on_call, on_raise=outer.on_raise, max_steps=outer.max_steps)
             sub.me.env[fdef.name] = closure
+            if is_gen:
+                sub.yielded = []
             r = sub.run(fdef.body)
             outer.steps += sub.steps
+            if is_gen:
+                if isinstance(r, tuple) and r[0] == "raise":
+                    raise ModelRaise(r[1] or "Exception", "raised in generator")
+                return iter(sub.yielded)
             if isinstance(r, tuple) and r[0] == "return":
                 return r[1]
             if isinstance(r, tuple) and r[0] == "raise":
@@ -448,6 +464,11 @@ class BlockInterp:
             if self.me.ev(st.test):
                 return self.run(st.body)
             return self.run(st.orelse)
+        if isinstance(st, ast.Expr) and isinstance(st.value, ast.Yield):
+            if not hasattr(self, "yielded"):
+                raise Unsupported("yield outside a generator closure")
+            self.yielded.append(self.me.ev(st.value.value) if st.value.value is not None else None)
+            return "next"
         if isinstance(st, ast.Expr):
             if isinstance(st.value, ast.Constant):
                 return "next"
